@@ -51,49 +51,83 @@ theorem setKids_kidsOf (s : State) (c d : Cont) (l : List (Str × Nat)) :
 @[simp] theorem setKids_parent (s : State) (c : Cont) (l : List (Str × Nat)) : (s.setKids c l).parent = s.parent := by
   cases c <;> rfl
 
-@[simp] theorem pre_kids (s : State) (c : Cont) (v : Nat) : (pre s c v).kids = s.kids := by
-  cases c <;> rfl
-@[simp] theorem pre_top (s : State) (c : Cont) (v : Nat) : (pre s c v).top = s.top := by
-  cases c <;> rfl
+/-- the state after the first mutation of `add` at the current source: `variant.parent = self if hasattr(self, "uid") else None` -/
+def pre (s : State) (c : Cont) (v : Nat) : State := s.setParent v c
+
+@[simp] theorem pre_kids (s : State) (c : Cont) (v : Nat) : (pre s c v).kids = s.kids := rfl
+@[simp] theorem pre_top (s : State) (c : Cont) (v : Nat) : (pre s c v).top = s.top := rfl
+
+/-- the handler `variant.parent = old_parent` undoes the first mutation -/
+theorem setParent_restore (s : State) (v : Nat) (x : Option Nat) : (s.setParent v x).setParent v (s.parent v) = s := by
+  cases s with
+  | mk parent kids top =>
+    simp only [State.setParent, State.mk.injEq, and_true]
+    funext j
+    by_cases h : j = v <;> simp [h]
+
+/-- the statement order of `VariantBase.add` the theorems below are about; `script_here` is re-checked against the file
+regenerated from the source on every run -/
+def specScript : AddScript :=
+  { pre := [.saveParent, .parentOrNone],
+    body := [.validate, .pickKey, .cycleCheck, .setdefault, .dupRefuse],
+    restore := true,
+    post := [] }
+
+theorem script_here : Gen.forest_add_script = specScript := by decide
 @[simp] theorem pre_kidsOf (s : State) (c : Cont) (v : Nat) (d : Cont) : (pre s c v).kidsOf d = s.kidsOf d := by
   cases d <;> simp [State.kidsOf]
 
-theorem pre_parent_self (s : State) (p v : Nat) : (pre s (some p) v).parent v = some p := by
+theorem pre_parent_self (s : State) (c : Cont) (v : Nat) : (pre s c v).parent v = c := by
   simp [pre, State.setParent]
 
 theorem pre_parent_other (s : State) (c : Cont) (v w : Nat) (h : w ≠ v) : (pre s c v).parent w = s.parent w := by
-  cases c <;> simp [pre, State.setParent, h]
+  simp [pre, State.setParent, h]
 
 theorem kids_eq_kidsOf (s : State) (p : Nat) : s.kids p = s.kidsOf (some p) := rfl
 theorem top_eq_kidsOf (s : State) : s.top = s.kidsOf none := rfl
 
-/-- the three ways an `add` can end -/
+/-- the three ways an `add` can end.  A refused call returns the state it started from: the parent pointer written first
+is restored by the handler (proved from the script, `setParent_restore`). -/
 theorem add_cases (U : Nat → Attrs) (fuel : Nat) (s : State) (c : Cont) (v : Nat) (key : Option Str) :
-    (∃ e, add U fuel s c v key = (pre s c v, .error e)) ∨
+    (∃ e, add U fuel s c v key = (s, .error e)) ∨
     (add U fuel s c v key = (pre s c v, .ok ()) ∧ validate U (pre s c v) v = .ok ()
         ∧ dget (addKey U c v key) (s.kidsOf c) = some v) ∨
     (add U fuel s c v key = ((pre s c v).setKids c (s.kidsOf c ++ [(addKey U c v key, v)]), .ok ())
         ∧ validate U (pre s c v) v = .ok () ∧ dget (addKey U c v key) (s.kidsOf c) = none
         ∧ ∃ ps, allParents (pre s c v) fuel c = some ps ∧ ps.contains (some v) = false) := by
-  unfold add
-  simp only [pre_kidsOf]
-  cases hval : validate U (pre s c v) v with
-  | error e => exact Or.inl ⟨e, rfl⟩
+  have hrest : (s.setParent v c).setParent v (s.parent v) = s := setParent_restore s v c
+  have hk : (s.setParent v c).kidsOf c = s.kidsOf c := pre_kidsOf s c v c
+  have hun : add U fuel s c v key = runScript U fuel specScript s c v key := by unfold add; rw [script_here]
+  rw [hun]
+  cases hval : validate U (s.setParent v c) v with
+  | error e =>
+    refine Or.inl ⟨e, ?_⟩
+    simp only [runScript, specScript, execSteps, execStep, hval, if_true, hrest]
   | ok u =>
-    cases hp : allParents (pre s c v) fuel c with
-    | none => exact Or.inl ⟨_, rfl⟩
+    cases u
+    cases hp : allParents (s.setParent v c) fuel c with
+    | none =>
+      refine Or.inl ⟨.runtimeError, ?_⟩
+      simp only [runScript, specScript, execSteps, execStep, hval, hp, if_true, hrest]
     | some ps =>
       by_cases hc : ps.contains (some v) = true
-      · simp only [hc, if_true]; exact Or.inl ⟨_, rfl⟩
-      · have hc' : some v ∉ ps := by simpa using hc
+      · refine Or.inl ⟨.valueError, ?_⟩
+        simp only [runScript, specScript, execSteps, execStep, hval, hp, hc, if_true, hrest]
+      · have hc' : ps.contains (some v) = false := by simpa using hc
         cases hd : dget (addKey U c v key) (s.kidsOf c) with
         | none =>
-          refine Or.inr (Or.inr ?_)
-          simp [hc']
+          refine Or.inr (Or.inr ⟨?_, hval, rfl, ps, hp, hc'⟩)
+          simp only [runScript, specScript, execSteps, execStep, hval, hp, hc', Option.getD_some, hk, hd, if_true,
+            Bool.false_eq_true, if_false, pre]
         | some w =>
           by_cases hw : w = v
-          · subst hw; exact Or.inr (Or.inl (by simp [hc']))
-          · exact Or.inl ⟨.valueError, by simp [hc', hw]⟩
+          · subst hw
+            refine Or.inr (Or.inl ⟨?_, hval, rfl⟩)
+            simp only [runScript, specScript, execSteps, execStep, hval, hp, hc', Option.getD_some, hk, hd, if_true,
+              Bool.false_eq_true, if_false, pre]
+          · refine Or.inl ⟨.valueError, ?_⟩
+            simp only [runScript, specScript, execSteps, execStep, hval, hp, hc', Option.getD_some, hk, hd, hw, if_true,
+              Bool.false_eq_true, if_false, hrest]
 
 /-! ### the invariant that holds after ANY history -/
 
@@ -138,7 +172,7 @@ theorem InvW.of_same_kids {U s s'} (h : InvW U s) (hk : s'.kids = s.kids) (ht : 
 theorem new_edge_ok (U : Nat → Attrs) (s : State) (p v : Nat) (key : Option Str)
     (hv : validate U (pre s (some p) v) v = .ok ()) : EdgeOk U p (addKey U (some p) v key) v := by
   have V := validated_of_ok U _ v hv
-  have hp := pre_parent_self s p v
+  have hp := pre_parent_self s (some p) v
   exact ⟨by simp [addKey], V.uid_child p hp, V.arches_sub p hp⟩
 
 theorem InvW.insert {U : Nat → Attrs} {s : State} (h : InvW U s) (c : Cont) (v : Nat) (key : Option Str)
@@ -184,16 +218,16 @@ theorem InvW.add {U : Nat → Attrs} {s : State} (h : InvW U s) (fuel : Nat) (c 
   · rw [h']; exact h.of_same_kids (by simp) (by simp)
   · rw [h']; exact h.insert c v key hv hd
 
-/-! ### the full invariant, for histories that hand every object to `add` while it is not yet in the forest -/
+/-! ### the full invariant -/
 
 /-- `v` sits in some children dict -/
 def Placed (s : State) (v : Nat) : Prop := ∃ c k, (k, v) ∈ s.kidsOf c
 
-/-- hypothesis on one call `c.add(v, key)`: the object is not in the forest yet; a top-level add gets an object
-whose parent pointer is still `None` (F19: `Variants.add` does not reset it) and a key that is its id or UID (F22) -/
-structure Fresh (U : Nat → Attrs) (s : State) (c : Cont) (v : Nat) (key : Option Str) : Prop where
-  unplaced : ¬ Placed s v
-  topParent : c = none → s.parent v = none
+/-- hypothesis on one call `c.add(v, key)`: the object is not already filed under ANOTHER container object or key (F33: `add`
+does not check that; two objects with one UID both accept the same child), and an explicit top-level key is the id or the
+UID (F29).  Nothing is assumed about parent pointers, about the outcome, or about earlier refused calls. -/
+structure AddOk (U : Nat → Attrs) (s : State) (c : Cont) (v : Nat) (key : Option Str) : Prop where
+  elsewhere : ∀ d k', (k', v) ∈ s.kidsOf d → d = c ∧ k' = addKey U c v key
   keyOk : c = none → ∀ k, key = some k → k = [] ∨ k = (U v).id ∨ k = (U v).uid
 
 structure Inv (U : Nat → Attrs) (s : State) : Prop where
@@ -212,27 +246,26 @@ theorem Inv.empty (U : Nat → Attrs) : Inv U State.empty := by
   · intro k v h; simp [State.empty] at h
   · intro k v h; simp [State.empty] at h
 
-theorem Inv.of_pre {U : Nat → Attrs} {s : State} (h : Inv U s) (c : Cont) (v : Nat) (hu : ¬ Placed s v) :
-    Inv U (pre s c v) := by
+/-- writing the parent pointer of an object that is filed nowhere but (possibly) in `c` itself -/
+theorem Inv.of_pre {U : Nat → Attrs} {s : State} (h : Inv U s) (c : Cont) (v : Nat)
+    (hel : ∀ d k', (k', v) ∈ s.kidsOf d → d = c) : Inv U (pre s c v) := by
   refine ⟨h.weak.of_same_kids (by simp) (by simp), ?_, ?_, ?_, ?_⟩
   · intro d k w hm
     rw [pre_kidsOf] at hm
-    have hw : w ≠ v := by intro e; subst e; exact hu ⟨d, k, hm⟩
-    rw [pre_parent_other s c v w hw]; exact h.parent d k w hm
+    by_cases hw : w = v
+    · subst hw; rw [pre_parent_self]; exact (hel d k hm).symm
+    · rw [pre_parent_other s c v w hw]; exact h.parent d k w hm
   · intro d; rw [pre_kidsOf]; exact h.once d
   · intro k w hm; rw [pre_top] at hm; exact h.topAligned k w hm
   · intro k w hm; rw [pre_top] at hm; exact h.topKey k w hm
 
 theorem Inv.insert {U : Nat → Attrs} {s : State} (h : Inv U s) (c : Cont) (v : Nat) (key : Option Str)
-    (hf : Fresh U s c v key)
+    (hun : ¬ Placed s v) (hkey : c = none → ∀ k, key = some k → k = [] ∨ k = (U v).id ∨ k = (U v).uid)
     (hv : validate U (pre s c v) v = .ok ()) (hd : dget (addKey U c v key) (s.kidsOf c) = none) :
     Inv U ((pre s c v).setKids c (s.kidsOf c ++ [(addKey U c v key, v)])) := by
   have V := validated_of_ok U _ v hv
-  have hpre := h.of_pre c v hf.unplaced
-  have hpv : (pre s c v).parent v = c := by
-    cases c with
-    | none => simpa [pre] using hf.topParent rfl
-    | some p => exact pre_parent_self s p v
+  have hpre := h.of_pre c v (fun d k' hm => absurd ⟨d, k', hm⟩ hun)
+  have hpv : (pre s c v).parent v = c := pre_parent_self s c v
   refine ⟨h.weak.insert c v key hv hd, ?_, ?_, ?_, ?_⟩
   · intro d k w hm
     rw [setKids_kidsOf] at hm
@@ -253,7 +286,7 @@ theorem Inv.insert {U : Nat → Attrs} {s : State} (h : Inv U s) (c : Cont) (v :
       simp at hb; subst hb
       intro e; subst e
       obtain ⟨kv, hkv, rfl⟩ := List.mem_map.mp ha
-      exact hf.unplaced ⟨c, kv.1, hkv⟩
+      exact hun ⟨c, kv.1, hkv⟩
     · simp only [hc, if_false, pre_kidsOf]; exact h.once d
   · intro k w hm
     rw [top_eq_kidsOf, setKids_kidsOf] at hm
@@ -281,19 +314,102 @@ theorem Inv.insert {U : Nat → Attrs} {s : State} (h : Inv U s) (c : Cont) (v :
           by_cases he : k.isEmpty = true
           · simp [he]
           · simp only [he]
-            rcases hf.keyOk rfl k rfl with h0 | h0 | h0
+            rcases hkey rfl k rfl with h0 | h0 | h0
             · subst h0; simp at he
             · exact Or.inl h0
             · exact Or.inr h0
     · simp only [hc, if_false, pre_kidsOf] at hm
       exact h.topKey k w hm
 
-/-- `Inv` is preserved by every `add` of a fresh object – accepted or refused -/
+/-- core step: `elsewhere` is only needed when the validators accept the object under its new parent -/
+theorem Inv.add_core {U : Nat → Attrs} {s : State} (h : Inv U s) (fuel : Nat) (c : Cont) (v : Nat) (key : Option Str)
+    (hel : validate U (pre s c v) v = .ok () → ∀ d k', (k', v) ∈ s.kidsOf d → d = c ∧ k' = addKey U c v key)
+    (hkey : c = none → ∀ k, key = some k → k = [] ∨ k = (U v).id ∨ k = (U v).uid) :
+    Inv U (add U fuel s c v key).1 := by
+  rcases add_cases U fuel s c v key with ⟨e, h'⟩ | ⟨h', hv, -⟩ | ⟨h', hv, hd, -⟩
+  · rw [h']; exact h
+  · rw [h']; exact h.of_pre c v (fun d k' hm => (hel hv d k' hm).1)
+  · rw [h']
+    refine h.insert c v key ?_ hkey hv hd
+    rintro ⟨d, k', hm⟩
+    obtain ⟨rfl, rfl⟩ := hel hv d k' hm
+    have := dget_of_mem (h.weak.keys d) hm
+    rw [hd] at this; cases this
+
+/-- `Inv` is preserved by every `add` – accepted or refused – whose argument is not already filed elsewhere -/
 theorem Inv.add {U : Nat → Attrs} {s : State} (h : Inv U s) (fuel : Nat) (c : Cont) (v : Nat) (key : Option Str)
-    (hf : Fresh U s c v key) : Inv U (add U fuel s c v key).1 := by
-  rcases add_cases U fuel s c v key with ⟨e, h'⟩ | ⟨h', -⟩ | ⟨h', hv, hd, -⟩
-  · rw [h']; exact h.of_pre c v hf.unplaced
-  · rw [h']; exact h.of_pre c v hf.unplaced
-  · rw [h']; exact h.insert c v key hf hv hd
+    (hf : AddOk U s c v key) : Inv U (add U fuel s c v key).1 :=
+  h.add_core fuel c v key (fun _ => hf.elsewhere) hf.keyOk
+
+/-! ### universes without duplicate UIDs: no hypothesis on the history at all (default keys) -/
+
+/-- all objects ever constructed have pairwise different UIDs, none of them made of dashes only -/
+structure UidsApart (U : Nat → Attrs) : Prop where
+  inj : ∀ i j, (U i).uid = (U j).uid → i = j
+  solid : ∀ i, Str.removeChar '-' (U i).uid ≠ []
+
+theorem removeChar_append (c : Char) (a b : Str) : Str.removeChar c (a ++ b) = Str.removeChar c a ++ Str.removeChar c b := by
+  simp [Str.removeChar]
+
+theorem removeChar_self_cons (c : Char) (a : Str) : Str.removeChar c (c :: a) = Str.removeChar c a := by
+  simp [Str.removeChar]
+
+theorem removeChar_id {c : Char} {u : Str} (h : c ∉ u) : Str.removeChar c u = u := by
+  unfold Str.removeChar
+  apply List.filter_eq_self.mpr
+  intro x hx
+  simp only [ne_eq, decide_not, Bool.not_eq_true', decide_eq_false_iff_not]
+  intro e; subst e; exact h hx
+
+/-- a UID `p.uid-id` is never aligned as a top-level UID with the same id, unless `p.uid` consists of dashes -/
+theorem not_top_and_child {pu i u : Str} (hi : '-' ∉ i) (h1 : u = pu ++ '-' :: i) (h2 : Str.removeChar '-' u = i) :
+    Str.removeChar '-' pu = [] := by
+  rw [h1, removeChar_append, removeChar_self_cons, removeChar_id hi] at h2
+  have := congrArg List.length h2
+  simpa using this
+
+/-- with `UidsApart`, an object the validators accept under `c` cannot already be filed under another container -/
+theorem elsewhere_of_valid {U : Nat → Attrs} {s : State} (h : Inv U s) (hU : UidsApart U)
+    (htop : ∀ kv ∈ s.top, kv.1 = (U kv.2).id) (c : Cont) (v : Nat)
+    (hv : validate U (pre s c v) v = .ok ()) :
+    ∀ d k', (k', v) ∈ s.kidsOf d → d = c ∧ k' = addKey U c v none := by
+  have V := validated_of_ok U _ v hv
+  have hpv : (pre s c v).parent v = c := pre_parent_self s c v
+  intro d k' hm
+  cases d with
+  | some q =>
+    have e := h.weak.edge q k' v hm
+    cases c with
+    | some p =>
+      have h2 := V.uid_child p hpv
+      rw [e.uid] at h2
+      have := hU.inj q p (List.append_cancel_right h2)
+      subst this
+      exact ⟨rfl, by rw [e.key]; simp [addKey]⟩
+    | none =>
+      exact absurd (not_top_and_child V.id_nodash e.uid (V.uid_top hpv)) (hU.solid q)
+  | none =>
+    cases c with
+    | some p =>
+      exact absurd (not_top_and_child V.id_nodash (V.uid_child p hpv) (h.topAligned k' v hm)) (hU.solid p)
+    | none => exact ⟨rfl, by have := htop (k', v) hm; simp only at this; rw [this]; simp [addKey]⟩
+
+/-- one `add` with the default key keeps "top-level keys are ids" -/
+theorem topIds_add (U : Nat → Attrs) (fuel : Nat) (s : State) (c : Cont) (v : Nat)
+    (h : ∀ kv ∈ s.top, kv.1 = (U kv.2).id) : ∀ kv ∈ (add U fuel s c v none).1.top, kv.1 = (U kv.2).id := by
+  rcases add_cases U fuel s c v none with ⟨e, he⟩ | ⟨he, _⟩ | ⟨he, _⟩
+  · rw [he]; exact h
+  · rw [he]; simpa using h
+  · rw [he]
+    intro kv hkv
+    rw [top_eq_kidsOf, setKids_kidsOf] at hkv
+    by_cases hc : none = c
+    · simp only [hc, if_true] at hkv
+      subst hc
+      rcases List.mem_append.mp hkv with hkv | hkv
+      · exact h kv hkv
+      · simp at hkv; subst hkv; simp [addKey]
+    · simp only [hc, if_false, pre_kidsOf] at hkv
+      exact h kv hkv
 
 end PM.Forest
